@@ -40,20 +40,26 @@ class Parser(object):
         r'"[^"\n]*"'
         return t
 
+    def _number(self, t, base):
+        """ No number of the language needs more digits (the interpreter refuses to convert thousands of them). """
+        if len(t.value) > 100:
+            self._parser_error("integer literal of {} characters is too long".format(len(t.value)), t.lineno, t.lexpos)
+            t.value = 0
+        else:
+            t.value = int(t.value, base)
+        return t
+
     def t_CONST16(self, t):
         r'0x[0-9a-fA-F]+'
-        t.value = int(t.value, 16)
-        return t
+        return self._number(t, 16)
 
     def t_CONST8(self, t):
         r'0[0-7]+'
-        t.value = int(t.value, 8)
-        return t
+        return self._number(t, 8)
 
     def t_CONST10(self, t):
         r'(([1-9]\d*)|0)'
-        t.value = int(t.value)
-        return t
+        return self._number(t, 10)
 
     t_LBRACKET = r'\['
     t_RBRACKET = r'\]'
